@@ -43,6 +43,9 @@ impl<S: ShortGroupSignatureScheme> BlindCredentialRequest<S> {
                 claim.to_scalar(),
             ));
         }
+        // the issuer checks the proof against the hidden generators in index order;
+        // the label map iterates alphabetically
+        messages.sort_by_key(|(index, _)| *index);
         let (ctx, blinder) = S::new_blind_signature_context(
             &messages,
             &issuer.verifying_key,
